@@ -30,12 +30,12 @@ def run(ctx):
         t, i = common.tlc(ctx, "ZnIso", cfg, workers=2, timeout=300, allow_violation=True)
         if not i["violated"]:
             raise common.NoVerdict("sensitivity: %s (process-wide singletons / shared source field) was NOT refuted by TLC" % cfg)
-    if len(seqs) != 1 + 12 + 144 + 1728 or len(scheds) != 6 or len(scheds3) != 90:
+    if len(seqs) != 1 + 13 + 169 + 2197 or len(scheds) != 6 or len(scheds3) != 90:
         raise common.NoVerdict("unexpected vector counts %d %d %d" % (len(seqs), len(scheds), len(scheds3)))
     # ---- sequential replay: every sequence, same interpreter and separate interpreters, each in a fresh process
     cases = []
     for v in seqs:
-        if quick and len(v["seq"]) == 3 and rnd.random() > 0.4:
+        if quick and len(v["seq"]) == 3 and rnd.random() > 0.3:
             continue            # quick: all sequences of <= 2 polluters, a seeded 40% of those of 3
         for same in (True, False):
             cases.append(dict(id=len(cases), seq=v["seq"], same=same))
@@ -127,9 +127,9 @@ def run(ctx):
         common.report(ctx, "race:data-race", "Go race detector reported %d data races during the concurrent replay: %s" % (nrace, sites), dict(stderr=p.stderr[-3000:]))
     cov = dict(traces_validated_against_impl=len(cases) + len(ccases), samples=[dict(sequence=seqs[57]["seq"]), dict(schedule=scheds[3]["s"])],
                evaluations=len(cases) + len(ccases), distinct_nontrivial=len(seqs) + len(scheds) + len(scheds3),
-               rule="sequential: all 1885 sequences P1;..;Pn (n<=3; quick: all of n<=2 and a seeded 40 percent of n=3) over 12 polluters (mutate 数值 in place, redefine the constructor of 异常, redefine a "
+               rule="sequential: all 2380 sequences P1;..;Pn (n<=3; quick: all of n<=2 and a seeded 30 percent of n=3) over 13 polluters (mutate 数值 in place, redefine the constructor of 异常, redefine a "
                     "library type's constructor - by its name and through a variable that holds the type -, mutate a library type's dictionary default through an instance, write into the headers a response constructor supplied, fail three calls "
-                    "deep, declare names/methods/types, import libraries, run a FILE that imports a custom module file, a request whose INPUT-VARIABLE TEXT mutates 数值, names declared inside the body of a redefined constructor of 异常), preceded by an execution that FAILS three calls deep and whose error is rendered only at the very end (it must still describe its own execution), each on ONE interpreter "
+                    "deep, declare names/methods/types, import libraries, run a FILE that imports a custom module file, run a FILE in another directory that imports a same-named module with other content, a request whose INPUT-VARIABLE TEXT mutates 数值, names declared inside the body of a redefined constructor of 异常), preceded by an execution that FAILS three calls deep and whose error is rendered only at the very end (it must still describe its own execution), each on ONE interpreter "
                     "object and on separate ones, each in a fresh process, followed by a probe that observes every cell: the observation must equal the probe's in a "
                     "pristine process. static: the go/types inventory of package-level variables must equal the classified GLOBALS table of the spec. concurrent: all 6 interleavings of bind-source/read-source of 2 requests (x%d) and %d of the 90 of 3 requests through one "
                     "ZnPlaygroundHandler, the order enforced by the H4 gates: every request must be answered with its own program's result. TLC checks Isolation / "
